@@ -106,3 +106,91 @@ func (a *Analysis) first(e *Expr, set map[string]bool) {
 
 // HasCycle reports whether any rule is left-recursive.
 func (a *Analysis) HasCycle() bool { return len(a.LeftRec) > 0 }
+
+// AnalyzeChoiceBlind models finding D22: pigeon's nullable visit stops at the
+// first nullable alternative of a choice, so the nullable flags cached on the
+// expressions of the LATER alternatives (choices, sequences, rule references,
+// actions, recovery expressions) stay false, and a sequence there is taken to
+// begin only with its first item. Everything else is the exact analysis.
+func AnalyzeChoiceBlind(g *Grammar) *Analysis {
+	exact := Analyze(g)
+	visited := map[*Expr]bool{}
+	var visit func(e *Expr)
+	visit = func(e *Expr) {
+		visited[e] = true
+		switch e.K {
+		case KChoice:
+			for _, k := range e.Kids {
+				visit(k)
+				if exact.nullable(k) {
+					break
+				}
+			}
+		default:
+			for _, k := range e.Kids {
+				visit(k)
+			}
+		}
+	}
+	for _, r := range g.Rules {
+		visit(r.Expr)
+	}
+	a := &Analysis{Nullable: exact.Nullable, First: map[string]map[string]bool{}, LeftRec: map[string]bool{}}
+	var cached func(e *Expr) bool
+	cached = func(e *Expr) bool {
+		switch e.K {
+		case KChoice, KSeq, KRef, KAction, KRecover:
+			return visited[e] && exact.nullable(e)
+		case KLabel, KPlus:
+			return cached(e.Kids[0])
+		}
+		return exact.nullable(e)
+	}
+	var first func(e *Expr, set map[string]bool)
+	first = func(e *Expr, set map[string]bool) {
+		switch e.K {
+		case KRef:
+			set[e.Name] = true
+		case KSeq:
+			for _, k := range e.Kids {
+				first(k, set)
+				if !cached(k) {
+					return
+				}
+			}
+		case KChoice, KRecover:
+			for _, k := range e.Kids {
+				first(k, set)
+			}
+		case KOpt, KStar, KPlus, KAnd, KNot, KLabel, KAction:
+			first(e.Kids[0], set)
+		}
+	}
+	for _, r := range g.Rules {
+		set := map[string]bool{}
+		first(r.Expr, set)
+		a.First[r.Name] = set
+	}
+	for _, r := range g.Rules {
+		seen := map[string]bool{}
+		var dfs func(n string) bool
+		dfs = func(n string) bool {
+			for m := range a.First[n] {
+				if m == r.Name {
+					return true
+				}
+				if !seen[m] {
+					seen[m] = true
+					if dfs(m) {
+						return true
+					}
+				}
+			}
+			return false
+		}
+		if dfs(r.Name) {
+			a.LeftRec[r.Name] = true
+		}
+	}
+	return a
+}
